@@ -18,7 +18,8 @@
 
   Helper lemmas live in Proofs/Shared*.lean.
 -/
-import PrologVerif.Proofs.Shared
+import PrologVerif.Proofs.SharedView
+import PrologVerif.Proofs.SharedParam
 namespace PrologVerif.C14
 open PrologVerif PrologVerif.Shared
 
@@ -87,5 +88,146 @@ theorem C14_var_supply (σ₀ : State) (sched : Schedule) :
   obtain ⟨h1, h2⟩ := varsOf_exec sched σ₀
   refine ⟨h2, h1, fun c => h2.sublist (varsOf_filter_sublist _ _), ?_⟩
   exact var_event_unique _ h2
+
+/-- **C14_view_as_alone** (the second half of linearizability: "each client observes exactly the
+    abstract interning function it would observe alone, up to the numeric value of ids").
+    Take ANY interleaving of any number of clients and any client `c` that only asks for names of
+    atoms it has learned.  Then there are a renaming `ρ` of atoms — the identity on one-rune atoms,
+    injective and name-preserving on the atoms `c` saw — and a renaming `μ` of variables — strictly
+    monotone on the variables `c` received — such that replaying `c`'s operations ALONE from the
+    same initial state yields exactly `c`'s view, renamed.  Nothing any other client did is visible
+    to `c` except through the numeric values of ids. -/
+theorem C14_view_as_alone (σ₀ : State) (h₀ : TableInv σ₀) (sched : Schedule) (c : Nat)
+    (hwf : learnedOnly σ₀.names.length [] (view c (exec σ₀ sched)) = true) :
+    ∃ ρ μ : Nat → Nat,
+      (∀ a, a < base → ρ a = a) ∧
+      (∀ a ∈ atomsOf (view c (exec σ₀ sched)), ∀ b ∈ atomsOf (view c (exec σ₀ sched)), ρ a = ρ b → a = b) ∧
+      (∀ a ∈ atomsOf (view c (exec σ₀ sched)),
+        atomName (final σ₀ (soloSched ρ c (view c (exec σ₀ sched)))) (ρ a) = atomName (final σ₀ sched) a) ∧
+      (∀ v ∈ varsOf (view c (exec σ₀ sched)), ∀ w ∈ varsOf (view c (exec σ₀ sched)), v < w → μ v < μ w) ∧
+      exec σ₀ (soloSched ρ c (view c (exec σ₀ sched))) = (view c (exec σ₀ sched)).map (renEvent ρ μ) := by
+  let h := view c (exec σ₀ sched)
+  let σf := final σ₀ sched
+  let τf := final σ₀ (soloSched id c h)
+  have hσf : TableInv σf := final_inv _ _ h₀
+  have hτf : TableInv τf := final_inv _ _ h₀
+  have hknown : ∀ a, (a < base + σ₀.names.length ∨ a ∈ ([] : List Nat)) → Known σ₀ σ₀ a := by
+    intro a ha
+    rcases ha with ha | ha
+    · by_cases ha0 : a < base
+      · exact Or.inl ha0
+      · have hlt : a - base < σ₀.names.length := by omega
+        refine Or.inr ⟨σ₀.names[a - base], a, by simp [hlt], ?_⟩
+        exact (h₀.atoms_names _ _).mpr ⟨a - base, by omega, by simp [hlt]⟩
+    · simp at ha
+  obtain ⟨hsim, hk⟩ := sim c σf τf hτf σ₀.counter (varsOf h) σ₀.names.length sched σ₀ σ₀ [] []
+    h₀ h₀ (Le.refl _) (Le.refl _) hknown hwf (by simp [h]) (by simp) (by simp)
+  refine ⟨mkRho σf τf, mkMu σ₀.counter (varsOf h), fun a ha => mkRho_rune _ _ ha, ?_, ?_, ?_, hsim⟩
+  · intro a ha b hb hab
+    exact mkRho_inj hσf hτf (hk a ha) (hk b hb) hab
+  · intro a ha
+    rw [final_soloSched (mkRho σf τf) id]
+    exact mkRho_name hτf (hk a ha)
+  · intro v hv w _ hvw
+    have := countP_lt_strict hvw (varsOf h) hv
+    simp only [mkMu]; omega
+
+/-- **C14_id_parametric.**  The layers above the table, on id-level terms as Go manipulates them
+    (atoms are uint64 ids compared with `==`, ordered by NAME through `Atom.String`; variables are
+    numbers ordered numerically; answers are read with atoms by name and variables renamed by first
+    occurrence).  For ANY renaming `ρ` of atom ids that preserves names and is injective on the
+    atoms involved, and ANY renaming `μ` of variable numbers that is strictly monotone on the
+    variables involved:  identity (`==`, the base of unification), the standard order
+    (`compare/3`, sorting, `setof`), and canonical answers are unchanged. -/
+theorem C14_id_parametric (nm nm' : Nat → String) (ρ μ : Nat → Nat) (t u : ITerm)
+    (hname : ∀ a ∈ t.atoms ++ u.atoms, nm' (ρ a) = nm a)
+    (hρ : ∀ a ∈ t.atoms ++ u.atoms, ∀ b ∈ t.atoms ++ u.atoms, ρ a = ρ b → a = b)
+    (hμ : ∀ v ∈ t.vars ++ u.vars, ∀ w ∈ t.vars ++ u.vars, v < w → μ v < μ w) :
+    (t.ren ρ μ = u.ren ρ μ ↔ t = u) ∧
+    ITerm.cmp nm' (t.ren ρ μ) (u.ren ρ μ) = ITerm.cmp nm t u ∧
+    (t.ren ρ μ).answer nm' = t.answer nm ∧
+    (t.ren ρ μ).abs nm' = (t.abs nm).mapVars μ := by
+  have hinj : ∀ v ∈ t.vars ++ u.vars, ∀ w ∈ t.vars ++ u.vars, μ v = μ w → v = w := by
+    intro v hv w hw h
+    rcases Nat.lt_trichotomy v w with hlt | heq | hgt
+    · have := hμ v hv w hw hlt; omega
+    · exact heq
+    · have := hμ w hw v hv hgt; omega
+  have hcmp : ∀ v ∈ t.vars ++ u.vars, ∀ w ∈ t.vars ++ u.vars, compare (μ v) (μ w) = compare v w := by
+    intro v hv w hw
+    rcases Nat.lt_trichotomy v w with hlt | heq | hgt
+    · rw [Nat.compare_eq_lt.mpr hlt, Nat.compare_eq_lt.mpr (hμ v hv w hw hlt)]
+    · subst heq; simp
+    · rw [Nat.compare_eq_gt.mpr hgt, Nat.compare_eq_gt.mpr (hμ w hw v hv hgt)]
+  have habs := ITerm.abs_ren nm nm' ρ μ t (fun a ha => hname a (by simp [ha]))
+  refine ⟨⟨ITerm.ren_inj ρ μ t u hρ hinj, fun h => by rw [h]⟩, ITerm.cmp_ren nm nm' ρ μ t u hname hcmp, ?_, habs⟩
+  unfold ITerm.answer
+  rw [habs]
+  apply Term.canon_mapVars
+  rw [ITerm.vars_abs]
+  exact fun v hv w hw => hinj v (by simp [hv]) w (by simp [hw])
+
+/-- Go decides identity of atoms by `==` on ids, every model in this framework (and ISO) by
+    equality of names.  As long as the naming is injective on the atoms involved — which
+    `C14_atom_table_linearizable` guarantees for every atom obtained from `NewAtom`, whatever other
+    interpreters do — the two coincide. -/
+theorem C14_id_equality_is_name_equality (nm : Nat → String) (t u : ITerm)
+    (hinj : ∀ a ∈ t.atoms ++ u.atoms, ∀ b ∈ t.atoms ++ u.atoms, nm a = nm b → a = b) :
+    t.abs nm = u.abs nm ↔ t = u :=
+  ⟨ITerm.abs_inj nm t u hinj, fun h => by rw [h]⟩
+
+/-- **C14_answers_unchanged** (the three theorems combined).  Whatever the other interpreters do
+    to the shared state — any number of them, any interleaving — the ids client `c` holds differ
+    from the ids it would hold had it run ALONE only by renamings under which identity, order and
+    canonical answers of every term built from them are the same. -/
+theorem C14_answers_unchanged (σ₀ : State) (h₀ : TableInv σ₀) (sched : Schedule) (c : Nat)
+    (hwf : learnedOnly σ₀.names.length [] (view c (exec σ₀ sched)) = true) :
+    ∃ ρ μ : Nat → Nat,
+      exec σ₀ (soloSched ρ c (view c (exec σ₀ sched))) = (view c (exec σ₀ sched)).map (renEvent ρ μ) ∧
+      ∀ t u : ITerm,
+        (∀ a ∈ t.atoms ++ u.atoms, a ∈ atomsOf (view c (exec σ₀ sched))) →
+        (∀ v ∈ t.vars ++ u.vars, v ∈ varsOf (view c (exec σ₀ sched))) →
+        (t.ren ρ μ = u.ren ρ μ ↔ t = u) ∧
+        ITerm.cmp (nameFn (final σ₀ (soloSched ρ c (view c (exec σ₀ sched))))) (t.ren ρ μ) (u.ren ρ μ)
+          = ITerm.cmp (nameFn (final σ₀ sched)) t u ∧
+        (t.ren ρ μ).answer (nameFn (final σ₀ (soloSched ρ c (view c (exec σ₀ sched)))))
+          = t.answer (nameFn (final σ₀ sched)) := by
+  obtain ⟨ρ, μ, _, hinj, hname, hmono, hsim⟩ := C14_view_as_alone σ₀ h₀ sched c hwf
+  refine ⟨ρ, μ, hsim, ?_⟩
+  intro t u hat hvt
+  have := C14_id_parametric (nameFn (final σ₀ sched))
+    (nameFn (final σ₀ (soloSched ρ c (view c (exec σ₀ sched))))) ρ μ t u
+    (fun a ha => by simp only [nameFn, hname a (hat a ha)])
+    (fun a ha b hb => hinj a (hat a ha) b (hat b hb))
+    (fun v hv w hw => hmono v (hvt v hv) w (hvt w hw))
+  exact ⟨this.1, this.2.1, this.2.2.1⟩
+
+/-! ### the theorems rest on the atomicity of NewAtom (the mutex) -/
+
+/-- Without the lock — `NewAtom` as two separately scheduled halves, look up then insert —
+    interning is NOT stable: two clients can be handed different atoms for the same name. -/
+theorem C14_nonatomic_witness :
+    ¬ ∀ sched : List (Nat × NA.MicroOp), NA.stable (NA.exec ⟨empty, []⟩ sched) = true := by
+  intro h
+  have := h [(0, .lookup "foo"), (1, .lookup "foo"), (0, .insert), (1, .insert)]
+  revert this
+  decide +kernel
+
+/-! ### non-vacuity -/
+
+/-- an interleaving of two clients that meets the hypothesis of `C14_view_as_alone` for client 0,
+    in which client 0 is handed an atom that client 1 created, and variables interleave -/
+example :
+    let sched : Schedule := [(1, .newAtom "bar"), (0, .newAtom "foo"), (1, .newVar), (0, .newAtom "bar"),
+      (0, .newVar), (1, .newAtom "foo"), (0, .atomName (base + 0)), (1, .newVar), (0, .newVar)]
+    learnedOnly empty.names.length [] (view 0 (exec empty sched)) = true ∧
+    exec empty sched ≠ exec empty (soloSched id 0 (view 0 (exec empty sched))) ∧
+    (view 0 (exec empty sched)).map (·.res) =
+      [.atom (base + 1), .atom (base + 0), .var 2, .name (some "bar"), .var 4] ∧
+    (exec empty (soloSched id 0 (view 0 (exec empty sched)))).map (·.res) =
+      [.atom (base + 0), .atom (base + 1), .var 1, .name (some "foo"), .var 2] := by
+  decide +kernel
+
+example : TableInv empty := inv_empty
 
 end PrologVerif.C14
